@@ -449,6 +449,31 @@ theorem C11_pool_invariant (lb : LB) (h : Reach lb) :
       · split <;> exact ⟨hn, j + 1, hstep⟩
       · exact ⟨hn, j + 1, hstep⟩
 
+private theorem reach_reset (recs : List (URL × Nat)) : ∀ lb, Reach lb → Reach (RB.reset lb recs) := by
+  induction recs with
+  | nil => intro lb h; exact h
+  | cons r t ih => intro lb h; exact ih _ (.upsert r.1 (some r.2) h)
+
+/-- **behind a rebalancer**: `Rebalancer.UpsertServer` / `RemoveServer` (own records, `reset()` re-registering every
+    record) are sequences of upserts / removes of the wrapped balancer, whose `Servers()` the sticky lookup uses — also
+    when servers are registered on the wrapped balancer directly.  So every theorem above holds for the rebalancer
+    front end (with healthy backends: no weight is re-rated). -/
+theorem C11_rebalancer_admin (rb : RB) (h : Reach rb.lb) :
+    (∀ u w, Reach (rb.upsert u w).lb) ∧ (∀ u rb', rb.remove u = some rb' → Reach rb'.lb) := by
+  constructor
+  · intro u w
+    unfold RB.upsert
+    exact reach_reset _ _ (.upsert u _ h)
+  · intro u rb' hr
+    unfold RB.remove at hr
+    split at hr
+    · cases hr
+    · split at hr
+      · cases hr
+      · next lb1 hl =>
+        cases hr
+        exact reach_reset _ _ (.remove u h hl)
+
 /-! ## non-vacuity: concrete servers, pools and sessions satisfy the hypotheses -/
 
 def exA : URL := { scheme := ['h', 't', 't', 'p'], user := some (['u'], some ['p']), host := ['h', '1', ':', '8', '0'],
